@@ -1,5 +1,5 @@
 (* Proofs/Tariff.v — lemmas about Model/Tariff.v (C17). *)
-From Coq Require Import ZArith QArith Qminmax Lqa Lia List Bool String Sorting.Permutation Sorting.Sorted.
+From Coq Require Import ZArith QArith Qminmax Qround Lqa Lia List Bool String Sorting.Permutation Sorting.Sorted.
 From ACN Require Import Base.Num Base.Lex Base.Sort Base.Calendar Base.TariffRaw
                         Gen.Tariffs Gen.TariffK_Z Gen.TariffK_Q Model.Tariff.
 Import ListNotations.
@@ -647,3 +647,82 @@ Lemma bundled_season_class name raw : In (name, raw) bundled ->
     latest_breakpoint_rate (s_tariffs s0) (target_hour t) p /\
     get_demand_charge TS t = Ok (s_demand s0).
 Proof. intro Hin. apply file_total_season_class. eapply bundled_file_total; eauto. Qed.
+
+(* ------------------------------------------------------------------ fractional simulation periods *)
+Lemma step_time_q_eq k start n period :
+  Tariff_step_time_q (inject_Z k) (inject_Z start) n period
+  == inject_Z start + inject_Z k * (60000000 * period).
+Proof. unfold Tariff_step_time_q. reflexivity. Qed.
+
+Lemma instant_of_q_int (x : Q) (z : Z) : x == inject_Z z -> instant_of_q x = z.
+Proof. intro H. unfold instant_of_q. rewrite H. apply Qfloor_Z. Qed.
+
+Lemma step_time_q_int k start n p :
+  instant_of_q (Tariff_step_time_q (inject_Z k) (inject_Z start) n (inject_Z p)) = (start + k * (60000000 * p))%Z.
+Proof.
+  apply instant_of_q_int. rewrite step_time_q_eq.
+  rewrite !inject_Z_plus, !inject_Z_mult. reflexivity.
+Qed.
+
+Lemma loop_q_eq TS start len period n : forall k,
+  get_tariffs_loop_q TS start len period k n =
+  res_seq (map (fun j => get_tariff TS (instant_of_q (Tariff_step_time_q (inject_Z j) (inject_Z start) (inject_Z len) period)))
+               (map (fun i => (k + Z.of_nat i)%Z) (seq 0 n))).
+Proof.
+  induction n as [|n IH]; intro k; [reflexivity|].
+  cbn [get_tariffs_loop_q]. rewrite IH.
+  cbn [seq map res_seq]. rewrite Z.add_0_r.
+  replace (map (fun i => (k + Z.of_nat i)%Z) (seq 1 n))
+    with (map (fun i => (k + 1 + Z.of_nat i)%Z) (seq 0 n)); [reflexivity|].
+  rewrite <- seq_shift, map_map. apply map_ext. intro i. lia.
+Qed.
+
+Lemma get_tariffs_q_eq TS start n period :
+  get_tariffs_q TS start n period =
+  res_seq (map (fun k => get_tariff TS (instant_of_q (Tariff_step_time_q (inject_Z k) (inject_Z start) (inject_Z n) period)))
+               (Zrange n)).
+Proof. unfold get_tariffs_q, Zrange. rewrite loop_q_eq. repeat f_equal. Qed.
+
+(* on whole-minute periods the rational versions are the integer ones *)
+Lemma get_tariffs_q_int TS start n p : get_tariffs_q TS start n (inject_Z p) = get_tariffs TS start n p.
+Proof.
+  rewrite get_tariffs_q_eq, get_tariffs_eq. f_equal. apply map_ext. intro k. now rewrite step_time_q_int.
+Qed.
+
+Lemma iface_prices_q_int sim n st :
+  iface_get_prices_q (sim_tariff sim) (sim_start sim) (inject_Z (sim_period sim)) (sim_iteration sim) n st
+  = iface_get_prices sim n st.
+Proof.
+  unfold iface_get_prices_q, iface_get_prices. destruct (sim_tariff sim) as [TS|]; [|reflexivity].
+  rewrite get_tariffs_q_int. f_equal.
+  apply instant_of_q_int. unfold Iface_price_start_q, Iface_price_start.
+  rewrite !inject_Z_plus, !inject_Z_mult. reflexivity.
+Qed.
+
+Lemma iface_demand_q_int sim st :
+  iface_get_demand_charge_q (sim_tariff sim) (sim_start sim) (inject_Z (sim_period sim)) (sim_iteration sim) st
+  = iface_get_demand_charge sim st.
+Proof.
+  unfold iface_get_demand_charge_q, iface_get_demand_charge. destruct (sim_tariff sim) as [TS|]; [|reflexivity].
+  f_equal. apply instant_of_q_int. unfold Iface_demand_start_q, Iface_demand_start.
+  rewrite !inject_Z_plus, !inject_Z_mult. reflexivity.
+Qed.
+
+Lemma energy_cost_q_int TS start p agg : energy_cost_agg_q TS start (inject_Z p) agg = energy_cost_agg TS start p agg.
+Proof. unfold energy_cost_agg_q, energy_cost_agg. now rewrite get_tariffs_q_int. Qed.
+
+(* price vector and cost formula for any period whose microsecond count is whole (us = period * 6e7) *)
+Lemma get_tariffs_q_whole TS start n period us : 60000000 * period == inject_Z us ->
+  get_tariffs_q TS start n period = res_seq (map (fun k => get_tariff TS (start + k * us)%Z) (Zrange n)).
+Proof.
+  intro H. rewrite get_tariffs_q_eq. f_equal. apply map_ext. intro k. f_equal.
+  apply instant_of_q_int. rewrite step_time_q_eq, H. rewrite !inject_Z_plus, !inject_Z_mult. reflexivity.
+Qed.
+
+Lemma energy_cost_q_formula TS start period agg prices :
+  get_tariffs_q TS start (Z.of_nat (List.length agg)) period = Ok prices ->
+  exists c, energy_cost_agg_q TS start period agg = Ok c /\ c == Qsum (cost_terms prices agg (period / 60)).
+Proof.
+  intro H. unfold energy_cost_agg_q. rewrite H. simpl.
+  eexists. split; [reflexivity|]. unfold Analysis_energy_cost. apply Qdot_terms.
+Qed.
